@@ -1,4 +1,5 @@
 import Model.Pool
+import Model.Pipe
 import Driver.Util
 namespace Driver.C17
 open Util Pool
@@ -15,7 +16,100 @@ def kv (ws : List String) (k : String) : Option Nat :=
     | [a, b] => if a == k then b.toNat? else none
     | _ => none)
 
+/-! ### conducted schedules of the connect pipeline (Model/Pipe.lean) -/
+
+def b01 (b : Bool) : String := if b then "1" else "0"
+
+/-- what the harness records after every action: the registered pool, open sockets, connections in closed pools,
+    helper goroutines of setupConn (two per connect inside its handshake: `Hs` reporters R and W) -/
+def showHost (h : Pipe.Host) : String :=
+  let cur := match h.cur with
+    | none => "-"
+    | some p => s!"c{p.conns.length}x{b01 p.closed}f{b01 p.filling}"
+  let inHs := (h.pools.flatMap (·.att)).filter fun a => match a.stage with
+    | .opt => true | .st => true | .au _ => true | _ => false
+  s!"{cur}:{h.opened}:{h.closedConns}:{2 * inHs.length}"
+
+/-- fillers whose connects have all returned stop (the harness waits for `filling` to drop before it goes on) -/
+def autoStop (h : Pipe.Host) : Nat → Pipe.Host
+  | 0 => h
+  | n + 1 => match h.step .stop with
+    | some h' => autoStop h' n
+    | none => h
+
+def failAll (h : Pipe.Host) : List Nat → Pipe.Host
+  | [] => h
+  | k :: ks => match h.step (.fail k) with
+    | some h' => failAll h' ks
+    | none => failAll h ks
+
+def repeatStep (h : Pipe.Host) (a : Pipe.Act) : Nat → Pipe.Host
+  | 0 => h
+  | n + 1 => match h.step a with
+    | some h' => repeatStep h' a n
+    | none => h
+
+def splitTok (t : String) : String × Option Nat :=
+  let cs := t.toList
+  let name := cs.takeWhile Char.isAlpha
+  let num := cs.dropWhile Char.isAlpha
+  (String.ofList name, if num.isEmpty then none else (String.ofList num).toNat?)
+
+/-- one harness action = one model action plus the steps the harness waits for -/
+def macroStep (h : Pipe.Host) (tok : String) : Option Pipe.Host :=
+  let fuel := h.old.length + 2
+  match splitTok tok with
+  | ("ok", some k) => (h.step (.ok k)).map (autoStop · fuel)
+  | ("failE", some k) => (h.step (.fail k)).map (autoStop · fuel)
+  | ("failR", some k) => (h.step (.fail k)).map (autoStop · fuel)
+  | ("err", some k) => h.step (.err k)
+  | ("pick", none) => if h.cur.isNone then none else h.step .pick
+  | ("burst", none) =>   -- several fill() calls at once (32 in the model): all pass the first check, then take the write lock one by one
+      if h.cur.isNone then none else some (repeatStep (repeatStep h .fillCheck 32) .fillGo 32)
+  | ("up", none) => h.step .up
+  | ("down", none) => if h.cur.isNone then none else h.step .down
+  | ("pclose", none) => if h.cur.isNone then none else h.step .pclose
+  | ("sclose", none) =>
+      if h.sessClosed then none else
+      (h.step .sclose).map fun h' =>
+        autoStop (failAll h' ((h'.pools.flatMap (·.att)).map (·.id))) (fuel + 1)
+  | _ => none
+
+def runMacro (h : Pipe.Host) : List String → List String
+  | [] => []
+  | t :: ts => match macroStep h t with
+    | some h' => showHost h' :: runMacro h' ts
+    | none => "skip" :: runMacro h ts
+
+def kvs (ws : List String) (k : String) : Option String :=
+  (ws.findSome? fun w => match w.splitOn "=" with
+    | [a, b] => if a == k then some b else none
+    | _ => none)
+
+def pipeCfg (ws : List String) : Option Pipe.Cfg :=
+  match kv ws "size", kv ws "ks", kv ws "auth" with
+  | some n, some k, some a => some { size := n, ks := k == 1, auth := a }
+  | _, _, _ => none
+
+def parseHsAct : String → Option Hs.Act
+  | "rErr" => some .rErr | "rEnd" => some .rEnd | "wRet" => some .wRet | "rSend" => some .rSend
+  | "wSend" => some .wSend | "rEsc" => some .rEsc | "wEsc" => some .wEsc | "ctxFire" => some .ctxFire
+  | "cRecv" => some .cRecv | "cLeave" => some .cLeave | "cRet" => some .cRet
+  | _ => none
+
+def showHs (s : Hs.St) : String :=
+  let r (x : Hs.RPc) := match x with | .run => "run" | .send => "send" | .done => "done"
+  let c := match s.c with | .wait => "wait" | .got => "got" | .left => "left" | .ret => "ret"
+  s!"r={r s.r} w={r s.w} c={c} cancelled={b01 s.cancelled} buf={s.buf}"
+
 /-- ops:
+  pipe size=N ks=K auth=A rm=… : act act …
+      a conducted schedule of the connect pipeline → the line of states `cur:open:closedconns;…` the model
+      predicts (initial state first); acts: okK failEK failRK errK pick burst up down pclose sclose
+  pipeobs kind=… size=N maxconns=M orphans=O closedconns=C afterclose=J leaked=L stack=… stalled=S sched=…
+      the monitors of one pipeline scenario → accept | reject:<clause>  (C17_pipe_pool_bound,
+      C17_pipe_no_conn_after_close, C17_pipe_session_close_leaves_nothing, C17_hs_reporters_terminate)
+  hsmodel <code|buf> act …   the setupConn result protocol → final state or `stuck`
   poolobs size=N maxconns=M maxopen=K final=F afterclose=J
       what a monitor goroutine saw on a real Session: the largest len(pool.conns), the largest number of
       simultaneously open sockets to that host, the pool's size at quiescence before Close, open sockets
@@ -26,6 +120,33 @@ def kv (ws : List String) (k : String) : Option Nat :=
   model <size> <act> <act> ...         → conns/pending/filling/closed/opened after the run, or `stuck` -/
 def step (_ : Unit) (ws : List String) : Unit × String :=
   ((), match ws with
+  | "pipe" :: r =>
+      match pipeCfg r, r.dropWhile (· ≠ ":") with
+      | some c, _ :: acts =>
+        if c.size = 0 then "bad-op" else
+        let h := Pipe.Host.init c
+        let h := autoStop h 1
+        ";".intercalate (showHost h :: runMacro h acts)
+      | _, _ => "bad-op"
+  | "pipeobs" :: r =>
+      match kv r "size", kv r "maxconns", kv r "orphans", kv r "closedconns", kv r "afterclose", kv r "leaked", kv r "stalled" with
+      | some n, some m, some o, some c, some j, some l, some st =>
+        if m > n then s!"reject:pool-holds-{m}-of-{n}"
+        else if c > 0 then s!"reject:closed-pool-holds-{c}"
+        else if o > 0 then s!"reject:open-socket-outside-open-pool-{o}"
+        else if j > 0 then s!"reject:open-after-close-{j}"
+        else if l > 0 then s!"reject:goroutines-left-in-gocql-{l}:{(kvs r "stack").getD "?"}"
+        else if st > 0 then "reject:no-quiescence"
+        else "accept"
+      | _, _, _, _, _, _, _ => "bad-op"
+  | "hsmodel" :: v :: acts =>
+      match acts.mapM parseHsAct with
+      | some as =>
+        let res := if v == "buf" then Hs.runBuf Hs.St.init as else Hs.run Hs.St.init as
+        match res with
+        | some s => showHs s
+        | none => "stuck"
+      | none => "bad-op"
   | "poolobs" :: r =>
       match kv r "size", kv r "maxconns", kv r "maxopen", kv r "final", kv r "afterclose" with
       | some n, some m, some k, some f, some j =>
